@@ -390,6 +390,7 @@ def eval_arity(ctx, args):
     interpreter (only whether an operand is None matters)."""
     fn = ctx.program.func('dd._utils.assert_operator_arity')
     ev = ctx.evaluator('dd._utils')
+    ev.strict = True
     params = fn.params
     argvals = dict(zip(params, args))
     try:
@@ -672,6 +673,78 @@ FUNCTION_CLASSES = [
 ]
 
 
+def eval_method_concrete(ctx, modname, cls, mname, mgr_mod, mgr_cls):
+    """An operator method of a Python `Function` class run by the
+    interpreter on two handles with the node numbers 2 and 3 (the way
+    `eval_apply_concrete` runs `apply`): follows operand lists and
+    unpacked arguments, which the symbolic evaluator does not."""
+    from .. import interp
+    from . import models
+    m = ctx.program.func(f'{modname}.{cls}.{mname}')
+    made = dict()
+    codes = {2: S, 3: O}
+
+    def decode(x):
+        if isinstance(x, interp.Sym) and x.attrs is not None and \
+                'node' in x.attrs:
+            x = x.attrs['node']
+        if isinstance(x, bool) or not isinstance(x, int):
+            raise me.Undecided(f'operand {x!r}')
+        if x in (1, -1):
+            return me.TRUE if x == 1 else me.FALSE
+        v = codes.get(abs(x)) or made.get(abs(x))
+        if v is None:
+            raise me.Undecided(f'operand {x!r}')
+        return v if x > 0 else ('not', v)
+    mgr = interp.Sym('manager')
+    wrapper = interp.Sym('bdd', {'_bdd': mgr, 'manager': mgr})
+
+    def handle(node):
+        return interp.Sym('Function', {
+            'node': node, 'manager': mgr, 'bdd': wrapper})
+
+    def apply(mach, call, args, kw):
+        if not args or not isinstance(args[0], str):
+            raise interp.Unknown('apply with a non-constant operator')
+        ops = [decode(a) for a in args[1:]]
+        try:
+            g = eval_apply_concrete(ctx, mgr_mod, mgr_cls, args[0],
+                                    len(ops))
+        except me.Undecided as e:
+            raise interp.Unknown(str(e))
+        if g[0] == 'raise':
+            raise interp.Raised(g[1])
+        while len(ops) < 3:
+            ops.append(('const', None))
+        val = _subst(g, {'u': ops[0], 'v': ops[1], 'w': ops[2]})
+        k = 100 + len(made)
+        made[k] = val
+        return k
+
+    def function(mach, call, args, kw):
+        if not args:
+            raise interp.Unknown('Function()')
+        return handle(args[0] if not isinstance(args[0], interp.Sym)
+                      else args[0].attrs['node'])
+    stubs = models.ClassStubs(ctx.program, f'{modname}.{cls}', extra={
+        'apply': apply, 'Function': function, '_wrap': function,
+        '__contains__': lambda mach, c, a, k: True}, skip={'apply'})
+    env = {'self': handle(2)}
+    params = [p for p in m.params if p != 'self']
+    if params:
+        env[params[0]] = handle(3)
+    resolver = interp.ModuleEnv(ctx.program, modname, stubs)
+    try:
+        out, _ = interp.run_function(m.node, env, stubs, resolver)
+    except interp.Unknown as e:
+        raise me.Undecided(f'interpreter: {e}')
+    if out[0] == 'raise':
+        return ('raise', out[1])
+    if out[0] != 'return':
+        raise me.Undecided('the method returns nothing')
+    return decode(out[1])
+
+
 def cmp_semantics(v):
     """Canonical meaning of a comparison result over (self, other).
 
@@ -831,6 +904,15 @@ def r_optab_functions(which):
                 total += 1
                 try:
                     v = ev.call_function(m.node, argvals)
+                    if kind == 'table' and not unit.endswith('.pyx') \
+                            and classify(v, ('self', 'other'))[0] in (
+                                'undecided', 'raise'):
+                        # unpacked operand lists: the interpreter
+                        try:
+                            v = eval_method_concrete(
+                                ctx, modname, cls, mname, mgr_mod, mgr_cls)
+                        except me.Undecided:
+                            pass
                     if kind == 'table':
                         got = classify(v, ('self', 'other'))
                         exp = ('table', me.table(want, ('self', 'other')))
